@@ -8,7 +8,7 @@ from . import osc
 from . import c18_gen as gen
 from .common import iter_cases, case_rng, h64
 from .model_dispatch import (osc_match, classify_pattern_disagreement,
-                             pattern_features, selftest)
+                             pattern_features, pattern_key, selftest)
 
 N_PATHS = 12
 N_PATTERNS = 10
@@ -50,6 +50,9 @@ def run(spec, acc):
                 err = None
                 if via_clock:
                     res = rig.deliver(osc.enc_msg(pat, uid), sender)
+                    if res.clock_step:
+                        acc.count('deliveries_dropped_host_clock_step')
+                        continue
                     inv = res.inv
                     errs = [e for e in res.errs if e['exc']]
                     if res.escaped or res.hangs or not res.canary_ok:
@@ -92,8 +95,7 @@ def run(spec, acc):
                                       {'case': i, 'pattern': pat, 'address': p, 'count': c})
                     elif bool(c) != exp[k]:
                         cls = classify_pattern_disagreement(pat, p, bool(c))
-                        side = 'unexpected-invocation' if c else 'missed-invocation'
-                        acc.violation(f'C18/{side}/pattern/{cls}',
+                        acc.violation(pattern_key(bool(c), cls),
                                       {'case': i, 'pattern': pat, 'address': p,
                                        'library_matched': bool(c), 'osc_1_0_matches': exp[k],
                                        'via_clock': via_clock})
